@@ -1,4 +1,4 @@
 #!/bin/bash
 # runs every behaviour-preserving refactoring of selftest/must_pass against the checks listed for it
 cd /verif
-grep -v '^#' selftest/must_pass/index.txt | while read p props; do [ -n "$p" ] && tools/mustpass.sh selftest/must_pass/$p $props | grep -v '^ok'; done
+grep -v '^#' selftest/must_pass/index.txt | while read p props; do [ -n "$p" ] && tools/mustpass.sh /verif/selftest/must_pass/$p $props | grep -v '^ok'; done
